@@ -395,7 +395,13 @@ fn to_string_fn(name: &str, ty: goty::GoType) -> goast::Fn {
                     }),
                     args: vec![
                         goast::Expr::String {
-                            value: "%d".to_string(),
+                            // %d is only defined for integers; on a float it renders the
+                            // bad-verb marker "%!d(float64=1.5)" instead of the number.
+                            value: match ty {
+                                goty::GoType::TFloat32 | goty::GoType::TFloat64 => "%v",
+                                _ => "%d",
+                            }
+                            .to_string(),
                             ty: goty::GoType::TString,
                         },
                         goast::Expr::Var {
